@@ -238,10 +238,10 @@ func (c *inlCtx) tryStmt(s ast.Stmt, next ast.Stmt) ([]ast.Stmt, bool, bool) {
 }
 
 func namedResults(f *Func) bool {
-	if f.Decl.Type.Results == nil {
+	if f.Type == nil || f.Type.Results == nil {
 		return false
 	}
-	for _, fl := range f.Decl.Type.Results.List {
+	for _, fl := range f.Type.Results.List {
 		if len(fl.Names) > 0 {
 			return true
 		}
